@@ -186,13 +186,43 @@ def rule_r2(chk, facts):
             chk.ob('C04-R2', 'asmcode.c:WriteBytes:limit-before-store@%d' % n, okd, f.loc(ln),
                    'record limit tested first' if okd else 'line bytes are stored on a path that skipped the 65535-byte record test')
             ok, w = f.must_pass(b, i, accounts)
+            if not ok:
+                # accounted before the store on every path is just as good
+                ok2, w2 = f.guarded(b, i, lambda l: False, accounts)
+                ok = ok2
             chk.ob('C04-R2', 'asmcode.c:WriteBytes:store=>length@%d' % n, ok, f.loc(ln),
-                   'LenSoFar += ErgLen follows' if ok else 'bytes are stored without being added to the record length: ' + ' '.join(w[-5:]))
+                   'LenSoFar += ErgLen on every path through the store' if ok else 'bytes are stored without being added to the record length: ' + ' '.join(w[-5:]))
+            if any(m[0] == 'call' and callee_name(m) == 'fwrite' for m in walk_own(ex)):
+                # a path on which fill + len < C was established cannot reach a write that requires len >= C
+                big = []
+
+                def len_big(a):
+                    if a[0] == 'cmp' and a[1] in ('>=', '>') and a[2][0] in ('l', 'p') and const_val(a[3]) is not None:
+                        big.append((a[2], const_val(a[3]) + (1 if a[1] == '>' else 0)))
+                        return True
+                    return False
+                isbig = f.guarded(b, i, lambda l: edge_has_atom(l, len_big))[0]
+
+                def small_sum(l):
+                    return isbig and edge_has_atom(l, lambda a: a[0] == 'cmp' and a[1] in ('<', '<=') and const_val(a[3]) is not None and
+                                                   any(mentions(a[2], lambda x, v=v: strip(x) == v) and const_val(a[3]) <= c for v, c in big) and
+                                                   mentions(a[2], lambda x: var_is(x, {'CodeBufferFill'})))
+                okf, wf = f.guarded(b, i, small_sum, lambda e2: any(m[0] == 'call' and callee_name(m) == 'FlushBuffer' for m in walk_own(e2)))
+                chk.ob('C04-R2', 'asmcode.c:WriteBytes:flush-before-direct-write', okf, f.loc(ln),
+                       'buffered bytes of earlier lines are written first' if okf else
+                       'line bytes are written straight to the file on a path on which the write-behind buffer was not '
+                       'flushed: bytes of earlier lines land behind them in the record; path ' + ' '.join(wf[-5:]))
     if n < 2:
         raise AnalysisBroken('WriteBytes: stores not found')
     acc = [(b, i, ln) for b, i, ln, ex in f.elems() if accounts(ex)]
-    chk.ob('C04-R2', 'asmcode.c:WriteBytes:length-once', len(acc) == 1, f.loc(), 'one accounting statement' if len(acc) == 1 else
-           '%d statements add to LenSoFar' % len(acc))
+    twice = False
+    for (b, i, ln) in acc:
+        for (b2, i2, ln2) in acc:
+            if (b2, i2) != (b, i) and (b2 in f.reach_forward([t for t, l in f.succs().get(b, ())]) or (b2 == b and i2 > i)):
+                twice = True
+    okl = bool(acc) and not twice
+    chk.ob('C04-R2', 'asmcode.c:WriteBytes:length-once', okl, f.loc(), 'no path accounts a line twice' if okl else
+           'a path adds the line length to LenSoFar %s' % ('twice' if acc else 'never'))
     # the new record opened at the limit starts at the current counter
     for b, i, ln, n_ in f.calls('NewRecord'):
         a = nocast(n_[2][0])
@@ -287,7 +317,7 @@ def rule_r456(chk, facts):
                 chk.ob('C04-R5', '%s:%s:%s(PrgFile)' % (f.unit.name, f.name, callee_name(c)), ok, f.loc(ln),
                        'owner module' if ok else 'the code file is written outside asmcode.c: bytes bypass the record accounting')
     chk.rule('C04-R6', 'WriteBytes(): a copy into the write-behind buffer is made only when fill + length is below the '
-             'buffer size', min_instances=2)
+             'buffer size (or, after FlushBuffer(), when the length alone is)', min_instances=1)
     f = facts.func('asmcode.c', 'WriteBytes')
     for b, i, ln, c in f.calls('memcpy'):
         if not mentions(c[2][0], lambda x: var_is(x, {'CodeBuffer'})):
@@ -301,7 +331,16 @@ def rule_r456(chk, facts):
             lhs_ok = mentions(a[2], lambda x: strip(x) == L) and (not into_fill or mentions(a[2], lambda x: var_is(x, {'CodeBufferFill'})))
             return lhs_ok and const_val(a[3]) is not None
         ok, w = f.guarded(b, i, lambda l: edge_has_atom(l, bound))
-        chk.ob('C04-R6', 'asmcode.c:WriteBytes:memcpy@%d' % ln if False else 'asmcode.c:WriteBytes:memcpy:%s' % ('append' if into_fill else 'restart'),
+        if not ok and into_fill:
+            # fill + len < size, or (buffer flushed: fill == 0, and len < size)
+            def bound_len(a):
+                return a[0] == 'cmp' and a[1] in ('<', '<=') and strip(a[2]) == L and const_val(a[3]) is not None
+
+            def flushed(e2):
+                return any(m[0] == 'call' and callee_name(m) == 'FlushBuffer' for m in walk_own(e2))
+            ok = f.guarded(b, i, lambda l: edge_has_atom(l, bound), flushed)[0] and \
+                f.guarded(b, i, lambda l: edge_has_atom(l, bound) or edge_has_atom(l, bound_len))[0]
+        chk.ob('C04-R6', 'asmcode.c:WriteBytes:memcpy:%s' % ('append' if into_fill else 'restart'),
                ok, f.loc(ln), 'bounded by the buffer size' if ok else 'copy of %s bytes into the 512-byte buffer without a size test' % show(L))
 
 
